@@ -349,7 +349,9 @@ func c06(c *Ctx) (*report.Result, error) {
 			}
 			why = "the cancel function is not deferred before any exit"
 			for _, d := range flow.Defers(f) {
-				if d.Call.Value == cancel && coversAllExits2(f, d, wc) {
+				if coversAllExits2(f, d, wc) && deferRuns(d, func(cc *ssa.CallCommon, outer func(ssa.Value) ssa.Value) bool {
+					return !cc.IsInvoke() && (cc.Value == cancel || outer(cc.Value) == cancel)
+				}) {
 					ok = true
 				}
 			}
